@@ -114,7 +114,8 @@ def orthogonality_run(eng, code, with_m0, with_g, n):
     st = c20.Stubs(eng, with_g, with_m0)
     EE = importlib.import_module('src.error_estimator')
     EE.print = models.noprint
-    EE.np = models.NpProxy(dict(zeros=models.zeros_model))
+    EE.np = models.NpProxy(dict(zeros=models.zeros_model, array=models.array_model, argsort=models.argsort_model))
+    models.ARGSORT_TIES.clear()
     # symbolic elements (any geometry: the skeleton is independent of it)
     elems = []
     for i in range(n):
@@ -173,7 +174,10 @@ def orthogonality_run(eng, code, with_m0, with_g, n):
         elif rr == z3.sat:
             eng.stats['verdict_sat'] += 1
             problems.append('orthogonality: under the link hypotheses the residual does not integrate to zero over '
-                            'element %d (sign / index / argument-order mismatch between assembly and residual)' % i)
+                            'element %d (sign / index / argument-order mismatch between assembly and residual)%s' %
+                            (i, ' - on a path where np.argsort (default kind: tie order unspecified) returned tied '
+                             'keys %r reversed; NumPy does so only for some lengths / builds' % models.ARGSORT_TIES
+                             if models.ARGSORT_TIES else ''))
         else:
             raise Inconclusive('solver unknown on orthogonality')
     return problems
